@@ -27,7 +27,6 @@ import (
 	"go/token"
 	"math"
 	"os"
-	"path/filepath"
 	"regexp"
 	"sort"
 	"strconv"
@@ -818,6 +817,11 @@ func (c *fctx) fx(sc *scope, e ast.Expr) (string, typ, *cval) {
 	if cv := c.constEval(sc, e); cv != nil {
 		return "", typ{k: kUntyped}, cv
 	}
+	if c.t.sv {
+		if code, t, ok := c.svExpr(sc, unparen(e)); ok {
+			return code, t, nil
+		}
+	}
 	switch x := e.(type) {
 	case *ast.ParenExpr:
 		return c.fx(sc, x.X)
@@ -978,7 +982,7 @@ func (c *fctx) fcall(sc *scope, x *ast.CallExpr) (string, typ) {
 	if len(s.results) != 1 {
 		c.fail(x, "call of %s (%d results) in a single-value position", exprString(x.Fun), len(s.results))
 	}
-	if s.results[0].k == kStruct {
+	if s.results[0].k == kStruct && !c.t.sv {
 		c.fail(x, "call of %s returning a struct used as a value", exprString(x.Fun))
 	}
 	rt := s.results[0]
@@ -992,7 +996,10 @@ func (c *fctx) mathCall(sc *scope, x *ast.CallExpr, name string) (string, typ) {
 		a, _ := c.fxAs(sc, x.Args[i], F)
 		return a
 	}
-	unary := map[string]string{"Floor": "ffloor", "Ceil": "fceil", "Abs": "PrimFloat.abs"}
+	if name == "NaN" && len(x.Args) == 0 {
+		return "PrimFloat.nan", F
+	}
+	unary := map[string]string{"Floor": "ffloor", "Ceil": "fceil", "Abs": "PrimFloat.abs", "Sqrt": "PrimFloat.sqrt"}
 	if f, ok := unary[name]; ok {
 		if len(x.Args) != 1 {
 			c.fail(x, "math.%s with %d arguments", name, len(x.Args))
@@ -1212,6 +1219,11 @@ func (c *fctx) declareStruct(sc *scope, id *ast.Ident, t typ) *varInfo {
 
 // float-mode assignments the integer translator has no form for: x.f = e, x.f op= e, x := T{..}
 func (c *fctx) fassign(x *ast.AssignStmt, sc *scope) (string, bool) {
+	if c.t.sv {
+		if code, ok := c.svAssign(x, sc); ok {
+			return code, true
+		}
+	}
 	if len(x.Lhs) == 1 && len(x.Rhs) == 1 {
 		if sel, ok := x.Lhs[0].(*ast.SelectorExpr); ok {
 			id, ok := sel.X.(*ast.Ident)
@@ -1246,7 +1258,7 @@ func (c *fctx) fassign(x *ast.AssignStmt, sc *scope) (string, bool) {
 			code, tcode := c.exprAs(sc, x.Rhs[0], ft)
 			return c.let(name, code, tcode), true
 		}
-		if id, ok := x.Lhs[0].(*ast.Ident); ok && (x.Tok == token.DEFINE || x.Tok == token.ASSIGN) {
+		if id, ok := x.Lhs[0].(*ast.Ident); ok && (x.Tok == token.DEFINE || x.Tok == token.ASSIGN) && !c.t.sv {
 			if cl, t := c.structLiteral(sc, x.Rhs[0]); cl != nil {
 				var v *varInfo
 				if x.Tok == token.DEFINE && sc.vars[id.Name] == nil {
@@ -1312,7 +1324,7 @@ func (c *fctx) assignedIn(sc *scope, nodes []ast.Node) []string {
 		var n string
 		switch y := e.(type) {
 		case *ast.Ident:
-			if v := sc.lookup(y.Name); v != nil && v.t.k != kOpaque && v.t.k != kStruct {
+			if v := sc.lookup(y.Name); v != nil && v.t.k != kOpaque && (v.t.k != kStruct || (c.t.sv && v.fields == nil)) {
 				n = v.coq
 			}
 		case *ast.SelectorExpr:
@@ -1320,6 +1332,11 @@ func (c *fctx) assignedIn(sc *scope, nodes []ast.Node) []string {
 				if v := sc.lookup(id.Name); v != nil && v.fields != nil {
 					n = v.fields[y.Sel.Name]
 				}
+			}
+		}
+		if n == "" && c.t.sv {
+			if v, _, _, ok := c.svPath(sc, e); ok {
+				n = v.coq
 			}
 		}
 		if n != "" && !seen[n] {
@@ -1645,10 +1662,11 @@ func (t *translator) ffunction(tg ftarget, from ast.Node) *sig {
 	if s, ok := t.fsigs[key]; ok {
 		return s
 	}
-	label := tg.pkg + "." + tg.name
+	shownPkg := strings.TrimPrefix(tg.pkg, "\x00")
+	label := shownPkg + "." + tg.name
 	fkey := tg.name
 	if tg.recv != "" {
-		label = tg.pkg + "." + tg.recv + "." + tg.name
+		label = shownPkg + "." + tg.recv + "." + tg.name
 		fkey = tg.recv + "." + tg.name
 	}
 	if t.inProgress[key] {
@@ -1708,7 +1726,7 @@ func (t *translator) ffunction(tg ftarget, from ast.Node) *sig {
 		return c.goType(e), true
 	}
 	bindVar := func(n *ast.Ident, ty typ) {
-		if ty.k == kStruct {
+		if ty.k == kStruct && !t.sv {
 			v := c.declareStruct(c.top, n, ty)
 			for i, f := range ty.fields {
 				bind(v.fields[f], ty.fieldType(i))
@@ -1733,6 +1751,12 @@ func (t *translator) ffunction(tg ftarget, from ast.Node) *sig {
 			if ok {
 				bindVar(r.Names[0], rt)
 				s.nrecv = len(rt.fields)
+				if t.sv {
+					s.nrecv = 1
+					if ptrRecv {
+						c.fail(r, "pointer receiver (struct-value mode)")
+					}
+				}
 				if ptrRecv && !partial {
 					v := c.top.vars[r.Names[0].Name]
 					for _, f := range rt.fields {
@@ -2046,7 +2070,7 @@ func (t *translator) ffunction(tg ftarget, from ast.Node) *sig {
 			}
 		}
 		for _, r := range s.results {
-			if r.k == kStruct {
+			if r.k == kStruct && !t.sv {
 				for i := range r.fields {
 					rts = append(rts, r.fieldType(i).coq())
 				}
@@ -2086,6 +2110,9 @@ func (tg ftarget) coqName() string {
 		return tg.out
 	}
 	n := tg.name
+	if strings.HasPrefix(tg.pkg, "\x00") {
+		n = tg.pkg[strings.LastIndex(tg.pkg, "/")+1:] + "_" + n // a function of a dependency: r3_Add
+	}
 	if tg.recv != "" {
 		n = tg.recv + "_" + tg.name
 	}
@@ -2121,7 +2148,7 @@ func (t *translator) runFloat(abs string) string {
 	b.WriteString("   constant is the hexadecimal literal Go prints for it; the other functions of package math are fields of the record libm.\n")
 	b.WriteString("   Source files (relative to the repository root) and their SHA-256:\n")
 	for _, f := range files {
-		data, err := os.ReadFile(filepath.Join(abs, filepath.FromSlash(f)))
+		data, err := os.ReadFile(sourcePath(abs, f))
 		if err != nil {
 			failf("%v", err)
 		}
